@@ -269,6 +269,10 @@ var hostileConstants = []string{
 	"SET l[:big] = :x", "REMOVE l[:big]", "l[:big] = :x", "SET l[:neg1] = :x", "REMOVE l[:frac]", "SET l[:huge] = :x", "l[:v1] = :x", "SET l[:v1] = :x", "REMOVE m.k[:big]",
 	"contains(l, nosuchfn(a))", "contains(l, NOT a)", "contains(ss, size())", "begins_with(s, nosuchfn(a))", "SET a = if_not_exists(a, nosuchfn(:x))", "SET a = if_not_exists(a, size())",
 	"SET a = list_append(l, nosuchfn(:v5))", "a BETWEEN :x AND nosuchfn(b)", "a IN (:x, nosuchfn(b))",
+	// functions of the update grammar as arguments of condition functions, and the reverse
+	"attribute_exists(if_not_exists(zz, :x))", "begins_with(if_not_exists(zz, :x), :x)", "contains(if_not_exists(zz, ss), :x)", "size(list_append(l, :v5)) > :v1",
+	"attribute_not_exists(list_append(l, :v5))", "attribute_type(if_not_exists(a, :x), :s)", "contains(list_append(l, :v5), :x)", "size(if_not_exists(zz, :v5)) = :v1",
+	"SET a = if_not_exists(a, attribute_exists(b))", "SET a = list_append(l, contains(l, :x))", "SET a = if_not_exists(a, begins_with(s, :x))",
 	"a = :x\x00", "\xff\xfe", "a = :x \x80", "é = :x", "a = :x -- comment", "a = 'lit'", "a = \"lit\"",
 }
 
